@@ -28,6 +28,9 @@ import (
 	"verif/internal/l2"
 )
 
+// utxoBase is the scenario number of the first utxo-stop scenario.
+const utxoBase = 1000
+
 type unit struct {
 	id     string
 	scale  string // VERIF_SCALE for this workload under -race
@@ -41,8 +44,17 @@ func main() {
 	// ./check builds with -race: one child process per scenario. Scenarios
 	// 0..LateFixed-1 are fixed, the rest seeded.
 	nLate := r.Pick(6, 40)
+	// The utxo-stop family (internal/c18/utxostop.go) runs the same way; its
+	// scenarios are numbered from utxoBase.
+	nUtxo := r.Pick(5, 40)
 	if l2.IsChild() {
-		l2.RunScenarios(r, nLate, 300*time.Second, c18.LateAnswerScenario)
+		l2.RunScenarios(r, nLate, 300*time.Second, func(seed int64, k int, res *l2.Result) {
+			if k >= utxoBase {
+				c18.UtxoStopScenario(seed, k-utxoBase, res)
+				return
+			}
+			c18.LateAnswerScenario(seed, k, res)
+		})
 	}
 	root := evid.Root()
 	scratch := os.Getenv("VERIF_SCRATCH")
@@ -67,15 +79,24 @@ func main() {
 	_ = os.Setenv("GORACE", "halt_on_error=0 history_size=4 log_path="+filepath.Join(logDir, "late"))
 	go func() {
 		defer close(lateDone)
-		if only := os.Getenv("VERIF_C18_UNITS"); only != "" && only != "late" && only != "late0" {
+		only := os.Getenv("VERIF_C18_UNITS")
+		if only != "" && only != "late" && only != "late0" && only != "utxo" {
 			return
 		}
 		ks := make([]int, nLate)
 		for i := range ks {
 			ks[i] = i
 		}
-		if os.Getenv("VERIF_C18_UNITS") == "late0" {
+		if only == "late0" {
 			ks = ks[:1]
+		}
+		if only == "utxo" {
+			ks = nil
+		}
+		if only == "" || only == "utxo" {
+			for i := 0; i < nUtxo; i++ {
+				ks = append(ks, utxoBase+i)
+			}
 		}
 		l2.RunScenarioList(r, ks, 8, 300*time.Second, nil)
 		lateWall = time.Since(lateStart)
@@ -269,7 +290,7 @@ func main() {
 	r.Set("explanation", "Go race detector (happens-before) over the race-instrumented workloads "+strings.Join(names, ", ")+
 		", and over the late-answer scenarios of this program itself (built with -race by ./check)"+
 		"; the borrowed L2 workloads additionally run 9 goroutines calling BestBlock, IsCurrent, GetBlockHash/Header/Height, Peers, ConnectedCount, NetTotals, IsBanned, BanPeer/UnbanPeer, GetCFilter, GetBlock, Subscribe/Cancel in a loop. A report counts when either stack has a github.com/lightninglabs/neutrino frame; reports are deduplicated by the pair of first client frames. Sound for what it reports, silent about paths and interleavings not executed.")
-	r.Rule("each race-instrumented borrowed workload run is one evaluation (fingerprint race-run|<id>). LATE-ANSWER family (internal/c18; scenarios 0-2 fixed, the rest seeded; 6 quick / 40 thorough, one race-instrumented child process each, run next to the borrowed workloads): the complete ChainService syncs a generated chain from 2-4 simulated peers and then makes rounds of concurrent GetBlock (default and base encoding) / GetCFilter (single, OptimisticBatch, OptimisticReverseBatch with MaxBatchSize) calls for blocks not fetched before; a director keyed by REQUEST makes whichever peer is asked first for a request the plan marks late hold its answer for 2.3-3 s (past the 2 s query worker timeout, so the work manager hands the request to another peer; a batched answer may send a prefix at once) and then send it, and makes the peer asked next answer at that moment plus a seeded offset of -60..+60 ms, so that the answer of the peer the client gave up on arrives just before, with, or just after the answer to the retried request, several times per scenario; requests not marked late are answered after 0.1-0.35 s so that the calls of a round spread over all workers. Chains above 2000 blocks do the same to the checkpointed getcfheaders requests of the filter-header sync. Fixed scenarios: 0 = GetBlock only (4 peers, 5 rounds, 10 late answers), 1 = GetCFilter single/forward/reverse late next to GetBlock calls (3 peers), 2 = late cfheaders during sync of 2100 blocks, then mixed rounds (2 peers). Fingerprints late-answer|<plan>|peers|kinds|orders and marks late-answer|<call kind>|late-answer-{before,after}-retry-answer come from the event log (the held answer was sent after the client had asked another peer); non-trivial = at least one such late answer. The family has no oracle of its own: its race reports are collected like those of every other workload (workload id 'late')")
+	r.Rule("each race-instrumented borrowed workload run is one evaluation (fingerprint race-run|<id>). LATE-ANSWER family (internal/c18; scenarios 0-2 fixed, the rest seeded; 6 quick / 40 thorough, one race-instrumented child process each, run next to the borrowed workloads): the complete ChainService syncs a generated chain from 2-4 simulated peers and then makes rounds of concurrent GetBlock (default and base encoding) / GetCFilter (single, OptimisticBatch, OptimisticReverseBatch with MaxBatchSize) calls for blocks not fetched before; a director keyed by REQUEST makes whichever peer is asked first for a request the plan marks late hold its answer for 2.3-3 s (past the 2 s query worker timeout, so the work manager hands the request to another peer; a batched answer may send a prefix at once) and then send it, and makes the peer asked next answer at that moment plus a seeded offset of -60..+60 ms, so that the answer of the peer the client gave up on arrives just before, with, or just after the answer to the retried request, several times per scenario; requests not marked late are answered after 0.1-0.35 s so that the calls of a round spread over all workers. Chains above 2000 blocks do the same to the checkpointed getcfheaders requests of the filter-header sync. Fixed scenarios: 0 = GetBlock only (4 peers, 5 rounds, 10 late answers), 1 = GetCFilter single/forward/reverse late next to GetBlock calls (3 peers), 2 = late cfheaders during sync of 2100 blocks, then mixed rounds (2 peers). Fingerprints late-answer|<plan>|peers|kinds|orders and marks late-answer|<call kind>|late-answer-{before,after}-retry-answer come from the event log (the held answer was sent after the client had asked another peer); non-trivial = at least one such late answer. The family has no oracle of its own: its race reports are collected like those of every other workload (workload id 'late'). UTXO-STOP family (internal/c18/utxostop.go; scenarios 0-1 fixed, the rest seeded; 5 quick / 40 thorough, race-instrumented children of this program as well): the real UtxoScanner over a generated chain, 1-3 goroutines inside Enqueue and 0-2 readers waiting in Result when Stop is called, with the batch manager idle, inside a scan (held in a fetch), or parked at the client's pause point right after it unlocked the scanner mutex (the one place it leaves from without taking the mutex again); the first enqueuer is parked by a SLEEP (no happens-before edge from the harness) at the pause point past Enqueue's quit check, mutex held, so that Stop's walk over the queue happens while that Enqueue is inside its critical section; fingerprint utxo-stop|<where the batch manager is>|enq<n>|readers<m>, non-trivial = the enqueuer was parked before Stop was called and everything returned")
 	r.Sample(map[string]any{"workloads": names, "race_log_files": len(files), "reports": len(reports)})
 	r.Set("borrowed_workloads", names) // (the sample slots may be taken by the late-answer scenarios)
 	r.Assume("checkptr is enabled by -race as well; reports entirely inside harness code mean a broken harness (exit 2), reports entirely inside third-party packages are counted but not charged to the client")
